@@ -423,8 +423,8 @@ def _update_axis(
 
     def _all_nan(y):
       m = min(y.shape)
-      u = jnp.full((d, m), jnp.nan, jnp.float32)
-      s = jnp.full((m,), jnp.nan, jnp.float32)
+      u = jnp.full((d, m), jnp.nan, y.dtype)
+      s = jnp.full((m,), jnp.nan, y.dtype)
       return u, s
 
     return jax.lax.cond(jnp.isfinite(x).all(), svd, _all_nan, x)
